@@ -40,15 +40,59 @@ def apply_known(contracts: dict, pid: str, known: dict):
             contracts[k["function"]].setdefault("known", []).append(k)
 
 
+_TREE_HASH = None
+
+
+def tree_hash() -> str:
+    """Content hash of everything a verdict depends on: /repo/src (working tree), engine, contracts, findings."""
+    global _TREE_HASH
+    if _TREE_HASH is None:
+        import hashlib
+
+        h = hashlib.sha256()
+        roots = [os.path.join(os.environ.get("ZORG_SRC", "/repo/src"), "zorg"), os.path.join(VERIF, "engine"), os.path.join(VERIF, "contracts")]
+        for root in roots:
+            for dp, dn, fn in sorted(os.walk(root)):
+                dn.sort()
+                for f in sorted(fn):
+                    if f.endswith((".py", ".g4", ".json")):
+                        p = os.path.join(dp, f)
+                        h.update(p.encode())
+                        h.update(open(p, "rb").read())
+        if os.path.exists(KF_PATH):
+            h.update(open(KF_PATH, "rb").read())
+        _TREE_HASH = h.hexdigest()
+    return _TREE_HASH
+
+
 def _worker(job):
+    """Verifies one function / lemma.  Verdicts are memoised under .cache/ keyed by the content hash of the
+    whole input (repo working tree + engine + contracts + findings + tier), so the properties that share
+    listener contracts (C01, C02, C08) do not redo identical proofs; any edit to /repo changes the key."""
     kind, key, modnames, tier, pid = job
     try:
+        import hashlib
+
+        ck = hashlib.sha256(f"{tree_hash()}|{kind}|{key}|{tier}".encode()).hexdigest()[:32]
+        cdir = os.path.join(VERIF, ".cache")
+        cpath = os.path.join(cdir, ck + ".json")
+        if os.environ.get("PYVC_NO_CACHE") != "1" and os.path.exists(cpath):
+            r = json.load(open(cpath))
+            r["cached"] = True
+            return r
         sys.setrecursionlimit(20000)
         contracts = V.load_contracts(modnames)
         apply_known(contracts, pid, load_known())
         if kind == "fn":
-            return V.verify_function(key, contracts, tier=tier).to_json()
-        return V.verify_lemma(key, tier=tier).to_json()
+            r = V.verify_function(key, contracts, tier=tier).to_json()
+        else:
+            r = V.verify_lemma(key, tier=tier).to_json()
+        if r.get("status") in ("proved", "refuted") and not r.get("undecided_reason"):
+            os.makedirs(cdir, exist_ok=True)
+            tmp = cpath + f".{os.getpid()}.tmp"
+            json.dump(r, open(tmp, "w"), default=str)
+            os.replace(tmp, cpath)
+        return r
     except Exception:
         return {"function": key, "status": "crash", "traceback": traceback.format_exc(), "obligations": [], "vcs": 0, "vcs_discharged": 0}
 
@@ -107,6 +151,9 @@ def main(argv=None) -> int:
     tier = a.tier if a.tier in ("quick", "thorough") else "quick"
     seed = int(os.environ.get("VERIF_SEED", "0") or 0)
     t0 = time.time()
+    import logging
+
+    logging.disable(logging.CRITICAL)  # zorg's own warnings ("Skipping note ...") are not check output
     os.environ["VERIF_TIER"] = tier
     plan = importlib.import_module(f"checks.{pid.lower()}")
     contracts = V.load_contracts(plan.CONTRACTS)
@@ -250,6 +297,7 @@ def main(argv=None) -> int:
         "bounded_symbolic_obligations": nb_ob,
         "bounded_symbolic_discharged": nb_dis,
         "bounded_symbolic_note": "obligations of functions verified with a stated bound on list lengths (contents fully symbolic); labelled bounded, not counted under obligations/discharged",
+        "memoised_function_verdicts": sum(1 for r in reports if r.get("cached")),
         "vcs_total": sum(r.get("vcs", 0) for r in reports),
         "vcs_discharged": sum(r.get("vcs_discharged", 0) for r in reports),
         "backends": backends,
